@@ -195,6 +195,17 @@ DefinesR(ss) == \E i \in 1..Len(ss) : ss[i].k = "define" /\ \E j \in 1..Len(ss[i
 Shown(ss) == IF DefinesR(ss) THEN ss \o <<PrintS(<<StrL("r ="), Var("r")>>)>> ELSE ss
 RunCases == {CaseOf("C06/run/" \o p \o "/" \o o[1] \o "." \o o[2] \o "/" \o c, Prelude \o Wrap(c, Shown(Pos(p, o[3]))) \o <<PrintS(<<StrL("end"), Var("xi"), Var("xb"), Var("xs"), LenE(Var("si")), LenE(Var("ss"))>>)>>)
              : p \in PosNames, o \in OffersAll, c \in {"top", "func"}}
+\* spellings whose meaning depends on the grammar: a chain of comparisons WITHOUT brackets groups to the left, so `t == 1 < 2` is ((t == 1) < 2) - ill-typed for a
+\* bool t - and `1 < 2 == t` is ((1 < 2) == t) - well-typed.  The case carries the text; the program is what Go's grammar makes of it (F58)
+SynCase(id, body, src) == [id |-> id, prog |-> ProgOf(body), src |-> src]
+SynCases == {
+  SynCase("C06/syn/chain-bool-int-lt", <<Def1("t", BoolL(TRUE)), Def1("r", CmpE("<", CmpE("==", Var("t"), I("1")), I("2")))>>, "t := true\nr := t == 1 < 2\n"),
+  SynCase("C06/syn/chain-lt-eq-bool", <<Def1("t", BoolL(TRUE)), Def1("r", CmpE("==", CmpE("<", I("1"), I("2")), Var("t"))), Print1(Var("r"))>>, "t := true\nr := 1 < 2 == t\nprint(r)\n"),
+  SynCase("C06/syn/chain-eq-eq-int", <<Def1("x", I("1")), Def1("r", CmpE("==", CmpE("==", Var("x"), I("1")), BoolL(TRUE))), Print1(Var("r"))>>, "x := 1\nr := x == 1 == true\nprint(r)\n"),
+  SynCase("C06/syn/chain-int-int-int", <<Def1("x", I("1")), Def1("r", CmpE("<", CmpE("<", I("0"), Var("x")), I("2")))>>, "x := 1\nr := 0 < x < 2\n"),
+  SynCase("C06/syn/chain-str-eq-bool-eq-str", <<Def1("s", StrL("a")), Def1("r", CmpE("==", CmpE("==", Var("s"), StrL("a")), StrL("a")))>>, "s := \"a\"\nr := s == \"a\" == \"a\"\n"),
+  SynCase("C06/syn/chain-in-condition", <<Def1("x", I("3")), If1(CmpE("==", CmpE(">", Var("x"), I("1")), BoolL(TRUE)), <<Print1(I("1"))>>)>>, "x := 3\nif x > 1 == true {\n\tprint(1)\n}\n"),
+  SynCase("C06/syn/chain-in-condition-bad", <<Def1("x", I("3")), If1(CmpE(">", CmpE("==", BoolL(TRUE), BoolL(TRUE)), I("1")), <<Print1(I("1"))>>)>>, "x := 3\nif true == true > 1 {\n\tprint(1)\n}\n")}
 ASSUME ndJsonSerialize("famrun.ndjson", SetToSeq(RunCases))
 \* the type written `error` is the string type under another spelling: every position that takes or delivers a value of a type written
 \* `error` x every offered expression (plus values whose own type was written `error`), in every context
@@ -235,6 +246,6 @@ EFuncPos(p, h) ==
 ErrCases == {CaseOf("C06/err/" \o p \o "/" \o o[1] \o "." \o o[2] \o "/" \o c, EPrelude \o Wrap(c, EPos(p, o[3]))) : p \in EPosNames, o \in EOffers, c \in Contexts}
             \cup {CaseOf("C06/errret/" \o p \o "/" \o o[1] \o "." \o o[2], EPrelude \o EFuncPos(p, o[3]) \o <<ExprS(CallE("g", <<>>))>>) : p \in EFuncPosNames, o \in EOffers}
 
-All == ErrCases \cup PosCases \cup RetCases \cup ArityCases \cup VListCases
+All == SynCases \cup ErrCases \cup PosCases \cup RetCases \cup ArityCases \cup VListCases
 ASSUME ndJsonSerialize("fam.ndjson", SetToSeq(All))
 =============================================================================
